@@ -1,6 +1,6 @@
 //@ assume: global::create_pow_context (C05/pow_context: which verifier is scheduled for a height / edge-bits pair), PoWContext::set_header_nonce (SipHash key derivation from the header bytes: blake2b + siphash, outside) and PoWContext::verify (the five verifiers: C05/*_verify) are abstract: a context remembers the parameters it was created with and the header bytes / nonce its keys were set from, and `verify` is an uninterpreted predicate of (context parameters, key material, proof); BlockHeader::pre_pow is an uninterpreted function of the header (its layout: C10/header_ser); T5: `create_pow_context::<u64>` => the abstract constructor, `Box<dyn PoWContext>` => the abstract context
 //@ assume: decided here (C05 'PoW verification accepts exactly the cycles of the HEADER-SEEDED graph', the glue): pow::verify_size(header) returns Ok ONLY IF the verifier scheduled for the header's OWN height, the proof's OWN edge bits and the proof's OWN number of nonces, keyed from the header's OWN pre-PoW bytes (no nonce override, not in solve mode), accepted the header's OWN proof; a context that cannot be created or keyed is an error
-//@ assumed_items: 4
+//@ assumed_items: 6
 //@ fns: pow::verify_size
 global size_of usize == 8;
 pub enum Error { Verification, Other }
@@ -28,6 +28,11 @@ impl PowCtx {
         ensures r is Ok ==> (self.keyed@ matches Some(k) && sp_pow_valid(self.params@, k.0, k.1, k.2, *proof)) { unimplemented!() }
 }
 pub mod global { use super::*;
+    /// offered (not used by the pinned text): chain-wide defaults, unrelated to the header at hand
+    #[verifier::external_body]
+    pub fn proofsize() -> (r: usize) { unimplemented!() }
+    #[verifier::external_body]
+    pub fn min_edge_bits() -> (r: u8) { unimplemented!() }
     #[verifier::external_body]
     pub fn create_pow_context(height: u64, edge_bits: u8, proof_size: usize, max_sols: u32) -> (r: Result<PowCtx, Error>)
         ensures r matches Ok(c) ==> c.params@ == (CtxParams { height, edge_bits, proof_size, max_sols }) && sp_scheduled(c.params@) && c.keyed@ is None { unimplemented!() }
